@@ -242,9 +242,12 @@ func ruleZeroConcurrency(p *Prog, l *Ledger, tier string) {
 // ruleNoSharedStateIn: R5.2 restricted to the functions of a scope (the writers of a format): what a writer emits
 // must be a function of the cue list it is given; a writer that stores into package-level memory makes a later
 // write (of another list, or of the same one) come out differently.
-func ruleNoSharedStateIn(scope func(*Prog, *Ledger, string) []*ssa.Function, min int) func(p *Prog, l *Ledger, tier string) {
+func ruleNoSharedStateIn(scope func(*Prog, *Ledger, string) []*ssa.Function, min int, role ...string) func(p *Prog, l *Ledger, tier string) {
 	return func(p *Prog, l *Ledger, tier string) {
-		const rule = "E5.R5.2w-writer-no-shared-state"
+		rule, who, next := "E5.R5.2w-writer-no-shared-state", "a writer", "the next document written in this process depends on this one"
+		if len(role) > 0 && role[0] == "reader" {
+			rule, who, next = "E5.R5.2r-reader-no-shared-state", "a reader", "what the next document read in this process denotes depends on this one"
+		}
 		e := ComputeEffects(p)
 		n := 0
 		for _, fn := range scope(p, l, rule) {
@@ -258,11 +261,37 @@ func ruleNoSharedStateIn(scope func(*Prog, *Ledger, string) []*ssa.Function, min
 			}
 			n++
 			bad := 0
+			// effects already present in a callee are reported there
+			inCallee := map[string]bool{}
+			for _, b := range fn.Blocks {
+				for _, ins := range b.Instrs {
+					switch x := ins.(type) {
+					case ssa.CallInstruction:
+						callees, _ := p.Callees(fn, x)
+						for _, c := range callees {
+							if cs := e.Sum[c]; cs != nil && c != fn {
+								for k := range cs.Effects {
+									inCallee[k] = true
+								}
+							}
+						}
+					case *ssa.MakeClosure:
+						if cs := e.Sum[x.Fn.(*ssa.Function)]; cs != nil {
+							for k := range cs.Effects {
+								inCallee[k] = true
+							}
+						}
+					}
+				}
+			}
 			for _, ef := range sortedEffects(sum.Effects) {
 				base := rootBase(ef.Root)
 				if strings.HasPrefix(base, "G:") {
 					bad++
-					l.Fail(rule, name, rule+"|"+name+"|"+base+"|"+ef.Loc, p.Pos(ef.Pos), name+" (reached from a writer) stores into package-level memory: "+effDesc(p, ef)+": the next document written in this process depends on this one")
+					if inCallee[ef.key()] {
+						continue
+					}
+					l.Fail(rule, name, rule+"|"+name+"|"+base+"|"+ef.Loc, p.Pos(ef.Pos), name+" (reached from "+who+") stores into package-level memory: "+effDesc(p, ef)+": "+next)
 				}
 			}
 			if bad == 0 {
